@@ -470,6 +470,9 @@ def run_pumps(ver, tier, acc):
     acc.sample({'version': ver, 'pump': "concat('abc, " + 'x' * 30, 'rule': 'an unterminated literal followed by n characters fails at once for every n'}, limit=1)
 
 
+ODD_CHARS = ['\x0b', '\x0c', '\x1c', '\x1f', '\x85', '\xa0', '\u1680', '\u2003', '\u2009', '\u2028', '\u205f', '\u3000', '\ufeff', '\x00', '\x7f', '\u200b', '\ud7ff', '\U0001f600', '\u0300']
+
+
 def tokenize_corpus(src):
     return re.findall(r"'[^']*'|Q\{[^}]*\}\w+|\(:|:\)|::|:=|\|\||=>|!=|<=|>=|<<|>>|//|\.\.|[A-Za-z_][\w.-]*(?::[A-Za-z_][\w.-]*)?(?:\(\))?|\$\w+|\d+(?:\.\d+)?(?:e\d+)?|\S", src)
 
@@ -522,6 +525,20 @@ def run_unit(unit, tier, acc):
                 if s not in seen:
                     seen.add(s)
                     run_input(ver, s, acc, 'mutation of ' + src)
+            # characters that Python calls whitespace but XPath does not (and a few other code points no token starts with),
+            # as the separator at every gap and in place of every token
+            toks = tokenize_corpus(src)
+            for ch in ODD_CHARS:
+                for i in range(len(toks) + 1):
+                    s = ' '.join(toks[:i]) + ch + ' '.join(toks[i:])
+                    if s not in seen:
+                        seen.add(s)
+                        run_input(ver, s, acc, 'odd character in ' + src)
+                for i in range(len(toks)):
+                    s = ' '.join(toks[:i] + [ch] + toks[i + 1:])
+                    if s not in seen:
+                        seen.add(s)
+                        run_input(ver, s, acc, 'odd character in ' + src)
         acc.sample({'version': ver, 'corpus_expression': CORPUS[2], 'a_mutation': ' '.join(next(iter(mutations(CORPUS[2]))))})
     elif k == 'ops':
         contexts()
